@@ -185,6 +185,39 @@ def moveAllFront (h : Heap) (dst src : LL) : Option Heap :=
     some (setPrev h src.tail (some src.head))
   | _, _, _ => none
 
+/-! ### validity predicates of the header -/
+
+/-- `aws_linked_list_node_next_is_valid`: `node->next && node->next->prev == node` -/
+def nodeNextIsValid (h : Heap) (n : NodeId) : Bool :=
+  match (h n).next with
+  | none => false
+  | some x => (h x).prev == some n
+
+/-- `aws_linked_list_node_prev_is_valid` -/
+def nodePrevIsValid (h : Heap) (n : NodeId) : Bool :=
+  match (h n).prev with
+  | none => false
+  | some x => (h x).next == some n
+
+/-- `aws_linked_list_node_is_in_list` -/
+def nodeIsInList (h : Heap) (n : NodeId) : Bool := nodePrevIsValid h n && nodeNextIsValid h n
+
+/-- `aws_linked_list_is_valid` (shallow: AWS_DEEP_CHECKS is off) -/
+def isValid (h : Heap) (l : LL) : Bool :=
+  (h l.head).next.isSome && (h l.head).prev.isNone && (h l.tail).prev.isSome && (h l.tail).next.isNone
+
+/-- `aws_linked_list_is_valid_deep`: the `while (temp)` loop from `cur` (fuel bounds the walk) -/
+def isValidDeepFrom (h : Heap) (l : LL) : Nat → NodeId → Bool
+  | 0, _ => false
+  | fuel + 1, cur =>
+    if cur = l.tail then true
+    else if !nodeNextIsValid h cur then false
+    else match (h cur).next with
+      | none => false
+      | some nx => isValidDeepFrom h l fuel nx
+
+def isValidDeep (h : Heap) (l : LL) (fuel : Nat) : Bool := isValidDeepFrom h l fuel l.head
+
 /-! ### Abstraction: the node sequence -/
 
 /-- follow `next` from `cur` until `tail`; `none` = NULL met or fuel exhausted -/
